@@ -14,7 +14,7 @@ def norm(s):
     return ORD.sub("", s).replace("ruzstd::io_nostd::", "io::").replace("std::io::", "io::").replace("ruzstd::io_std::", "io::")
 
 
-_LE_L = re.compile(r"(?<![\w.])(-?\d+) <= ")
+_LE_L = re.compile(r"(?<![\w.$@#])(-?\d+) <= ")        # not `$0 <= x` (a parameter), `@x#1 <= y` (an ordinal)
 _LE_R = re.compile(r" <= (-?\d+)(?![\w.])")
 
 
